@@ -20,12 +20,11 @@ import (
 )
 
 // The configuration the repository ships. `consensus/mock.go` is the only implementation of
-// votecounter.Validators in /repo: power 1 for EVERY address and power N for
-// consensus/sync.SyncProtocolPrecommitSender (the sender of the single precommit that
-// MessageExtractor fabricates for a block obtained by block sync). Neither is a validator set in
-// the sense of the property ("faulty validators hold less than one third of the voting power"):
-// whoever can put an address into a message holds that address's power, and nothing in the
-// state machine, the driver or the p2p vote listener authenticates the sender.
+// votecounter.Validators in /repo. Until b29aadf it gave power 1 to EVERY address, and until
+// d65a60f driver.listen passed gossiped messages of consensus/sync.SyncProtocolPrecommitSender
+// (power N: block sync needs it for the single precommit MessageExtractor fabricates) to the state
+// machine — whoever can put an address into a message held that address's power. Both are repaired;
+// the probes below stay, so that a regression is an unlisted VIOLATION:
 //
 //  1. probe the real shipped Validators for the two facts,
 //  2. if a non-member has power: three votes with invented sender addresses make a real state
@@ -49,7 +48,9 @@ func runShipped(res *lib.Result, drv *lib.Driver) {
 
 	// ---- 2. votes of invented senders count ----------------------------------------------------
 	if pNon > 0 {
-		sc := &Scenario{Cfg: shape, Nodes: []NodeSpec{{Node: 1, Height: 0, VBase: 800, VStep: 4}}}
+		regressed := shape
+		regressed.NonMemberPower = pNon
+		sc := &Scenario{Cfg: regressed, Nodes: []NodeSpec{{Node: 1, Height: 0, VBase: 800, VStep: 4}}}
 		ins := []In{{Kind: "start", R: 0}, {Kind: "prop", H: 0, R: 0, Sender: 0, VR: -1, Value: 8}}
 		for _, s := range []int{1001, 1002, 1003} {
 			ins = append(ins, In{Kind: "pv", H: 0, R: 0, Sender: s, Value: 8})
